@@ -45,6 +45,14 @@ def install(sink):
 
         def wrapper(self, oViolation, _q=q, _ct=ct, _real=real):
             sink["calls"] = sink.get("calls", 0) + 1
+            # distinct cases: (base, rule, classes of the region's tokens, action)
+            try:
+                sig = hash((_q, self.unique_id, tuple(type(t).__name__ for t in oViolation.get_tokens()), repr(oViolation.get_action())[:60])) & 0xFFFFFFFF
+                sh = sink.setdefault("shapes", [])
+                if len(sh) < 4000 and sig not in sh:
+                    sh.append(sig)
+            except Exception:
+                pass
             try:
                 out = concrete.check_call(_q, _ct, {"self": self, "oViolation": oViolation}, c["vocab"], fn=_real)
             except RecursionError:
